@@ -325,6 +325,7 @@ func runC10(c *config) {
 			}
 			for b := 0; b < 1<<16; b += step {
 				c10One(c, k, big.NewInt(int64(b)), "sweep")
+				c10HalfAsDouble(c, k, uint16(b))
 			}
 			for _, b := range c10Boundary(5, 10) {
 				c10One(c, k, b, "boundary")
@@ -440,4 +441,56 @@ func runC10(c *config) {
 		s, _ := c10Ident(c1)
 		return s
 	}()})
+}
+
+// halfToFloat64 is the exact value of a binary16 bit pattern
+func halfToFloat64(b uint16) float64 {
+	sign := 1.0
+	if b&0x8000 != 0 {
+		sign = -1.0
+	}
+	e, m := int((b>>10)&0x1f), float64(b&0x3ff)
+	switch e {
+	case 0:
+		return sign * math.Ldexp(m, -24)
+	case 31:
+		if m == 0 {
+			return sign * math.Inf(1)
+		}
+		return math.NaN()
+	}
+	return sign * math.Ldexp(1024+m, e-25)
+}
+
+// c10HalfAsDouble: LLVM also accepts a half written as the 16-digit bit pattern of the equal double; it must
+// denote the same half as the 0xH spelling and print as it does
+func c10HalfAsDouble(c *config, k c10Kind, b uint16) {
+	o := c.out
+	f := halfToFloat64(b)
+	if math.IsNaN(f) {
+		return
+	}
+	alt := fmt.Sprintf("0x%016X", math.Float64bits(f))
+	ref := k.literal(big.NewInt(int64(b)))
+	o.Stat("patterns.H.as_double_hex")
+	det := map[string]interface{}{"kind": k.typ.String(), "literal": alt, "same_value_as": ref}
+	c1, oc1, _ := c10Parse(k, ref)
+	c2, oc2, msg := c10Parse(k, alt)
+	if oc1 != ocOk {
+		return // reported by the sweep
+	}
+	if oc2 != ocOk {
+		o.Fail("float_round_trip", "", "the double-hex spelling of a half is rejected or crashes: "+oc2.String()+" "+msg, det)
+		return
+	}
+	p1, _ := c10Ident(c1)
+	p2, oc3 := c10Ident(c2)
+	det["printed"] = p2
+	if oc3 != ocOk || c10Value(c1) != c10Value(c2) || p1 != p2 {
+		det["value"] = c10Value(c2)
+		det["want_value"] = c10Value(c1)
+		o.Fail("float_round_trip", "", "the double-hex spelling of a half denotes another value than its 0xH spelling", det)
+	} else {
+		o.Pass("float_round_trip")
+	}
 }
